@@ -7,6 +7,9 @@
                                three timestamps before building the sample (false: it zips them as they come)
   applyWaitsAllCompleted       `FormulaEvaluator.apply` waits for all fetchers (`return_when=asyncio.ALL_COMPLETED`)
   defaultOutputCapacity        default `max_size` of `FormulaEngine.new_receiver`
+  fallbackSyncGuardsAhead      `MetricFetcher._synchronize_and_fetch_fallback` returns None (= use the primary sample)
+                               when the primary sample is OLDER than the latest fallback sample, before its catch-up
+                               loop `while primary.timestamp > latest.timestamp` (which only handles "newer")
 """
 import ast
 import pathlib
@@ -34,6 +37,46 @@ def _mentions(node: ast.AST | None, ident: str) -> bool:
     return node is not None and any(
         (isinstance(x, ast.Name) and x.id == ident) or (isinstance(x, ast.Attribute) and x.attr == ident)
         for x in ast.walk(node))
+
+
+def _ts_of(node: ast.AST) -> str | None:
+    """`<expr>.timestamp` -> a name for <expr> (`x` for a local, `self.y` -> `y`), else None."""
+    if isinstance(node, ast.Attribute) and node.attr == "timestamp":
+        v = node.value
+        if isinstance(v, ast.Name):
+            return v.id
+        if isinstance(v, ast.Attribute):
+            return v.attr
+    return None
+
+
+def _returns_none(body: list[ast.stmt]) -> bool:
+    return (len(body) >= 1 and isinstance(body[-1], ast.Return)
+            and (body[-1].value is None or (isinstance(body[-1].value, ast.Constant) and body[-1].value.value is None))
+            and not any(isinstance(x, (ast.Await, ast.Assign, ast.AugAssign)) for st in body for x in ast.walk(st)))
+
+
+def _fallback_guard(fn) -> bool:
+    """Is there, before the catch-up `while`, an `if <primary>.timestamp < <latest>.timestamp: return None`
+    (either orientation), `<primary>` being the first parameter of the function?"""
+    params = [a.arg for a in fn.args.args if a.arg != "self"]
+    if not params:
+        raise ValueError("_synchronize_and_fetch_fallback: no parameters")
+    primary = params[0]
+    loops = [i for i, st in enumerate(fn.body) if isinstance(st, ast.While)]
+    if len(loops) != 1:
+        raise ValueError("_synchronize_and_fetch_fallback: expected exactly one catch-up loop")
+    for st in fn.body[:loops[0]]:
+        if not (isinstance(st, ast.If) and isinstance(st.test, ast.Compare) and len(st.test.ops) == 1
+                and not st.orelse and _returns_none(st.body)):
+            continue
+        left, right = _ts_of(st.test.left), _ts_of(st.test.comparators[0])
+        op = st.test.ops[0]
+        if left is None or right is None or left == right:
+            continue
+        if (isinstance(op, ast.Lt) and left == primary) or (isinstance(op, ast.Gt) and right == primary):
+            return True
+    return False
 
 
 def generate(repo: pathlib.Path) -> str:
@@ -74,6 +117,8 @@ def generate(repo: pathlib.Path) -> str:
         else:
             raise ValueError("FormulaEngine3Phase._run: neither the pinned zip nor the resynchronising shape")
 
+    guards_ahead = _fallback_guard(_fn(mf, "_synchronize_and_fetch_fallback"))
+
     apply_fn = _fn(_cls(evaluator, "FormulaEvaluator"), "apply")
     _fn(_cls(evaluator, "FormulaEvaluator"), "_synchronize_metric_timestamps")
     all_completed = any(isinstance(k, ast.keyword) and k.arg == "return_when" and _mentions(k.value, "ALL_COMPLETED")
@@ -95,6 +140,7 @@ def generate(repo: pathlib.Path) -> str:
         f"def receiverErrorHandlersCatch : Bool := {b(catch)}\n"
         f"def threePhaseResyncs : Bool := {b(resync)}\n"
         f"def applyWaitsAllCompleted : Bool := {b(all_completed)}\n"
-        f"def defaultOutputCapacity : Nat := {cap}\n\n"
+        f"def defaultOutputCapacity : Nat := {cap}\n"
+        f"def fallbackSyncGuardsAhead : Bool := {b(guards_ahead)}\n\n"
         "end Extracted.Evaluator\n"
     )
